@@ -60,6 +60,9 @@ type Outcome struct {
 	MapCalls  int      `json:"map_calls"`
 
 	evalReturned bool
+	// IdleAdvances counts how often the scheduler let simulated time pass because the
+	// code under test was waiting on a timer of its own.
+	IdleAdvances int
 	// GatedOps / GatedChoices: operations released in GateReads mode, and how many
 	// of those releases had more than one candidate.
 	GatedOps     int `json:"gated_ops,omitempty"`
@@ -311,6 +314,10 @@ func schedule(d *Daemon, v *Variant, done chan struct{}, out *Outcome) (hang boo
 	batch := -1
 	var order []*gate
 	released := 0
+	// simulated time spent waiting for the code under test while nothing was pending
+	const maxIdle = time.Hour
+	var idle time.Duration
+	idleSteps := 0
 	for steps := 0; ; steps++ {
 		synctest.Wait()
 		select {
@@ -321,6 +328,7 @@ func schedule(d *Daemon, v *Variant, done chan struct{}, out *Outcome) (hang boo
 		parked := d.Parked()
 		reads := d.ParkedReads()
 		if v.GateReads && len(parked)+len(reads) > 0 {
+			idle, idleSteps = 0, 0
 			// PRNG-driven choice among everything that is parked: opens in inventory
 			// order first, then reads in stream order.
 			pick := NewRng(v.SchedSeed).SubN("pick", uint64(steps)).Intn(len(parked) + len(reads))
@@ -340,7 +348,23 @@ func schedule(d *Daemon, v *Variant, done chan struct{}, out *Outcome) (hang boo
 		if len(parked) == 0 {
 			wake, ok := d.nextWake()
 			if !ok {
-				return true
+				// Nothing is parked and the daemon has nothing scheduled. The code under test
+				// may be waiting on a timer of its own (a retry back-off, a poll interval):
+				// let simulated time pass, in growing steps, before calling it a hang. No
+				// request is pending while this happens, so no timeout of the code under
+				// test can fire because of it.
+				if idle >= maxIdle {
+					return true
+				}
+				step := time.Millisecond << idleSteps
+				if step > 10*time.Minute {
+					step = 10 * time.Minute
+				}
+				time.Sleep(step)
+				idle += step
+				idleSteps++
+				out.IdleAdvances++
+				continue
 			}
 			if dt := time.Until(wake); dt > 0 {
 				time.Sleep(dt)
@@ -349,6 +373,7 @@ func schedule(d *Daemon, v *Variant, done chan struct{}, out *Outcome) (hang boo
 			}
 			continue
 		}
+		idle, idleSteps = 0, 0
 		select {
 		case <-d.arrival:
 		default:
